@@ -124,7 +124,8 @@ func (c *RollingCounter) incBucketValue(v int) {
 
 // Returns the number in the moving window bucket that this slot occupies.
 func (c *RollingCounter) getBucket(t time.Time) int {
-	return int(t.Truncate(c.resolution).Unix() % int64(len(c.values)))
+	// slot number (not seconds) modulo bucket count: consecutive slots must map to consecutive buckets
+	return int(t.Truncate(c.resolution).UnixNano() / int64(c.resolution) % int64(len(c.values)))
 }
 
 // Reset buckets that were not updated.
